@@ -357,3 +357,86 @@ Proof.
   - unfold ext in Hin. apply in_map_iff in Hin. destruct Hin as [x [E Hx]]. inversion E; subst.
     apply U2 in Hx. pose proof (Hmi _ Hx). split; auto.
 Qed.
+
+(* ---------------------------------------------------------------------------------------- *)
+(* 2-D without reference point *)
+Lemma contribs_last_irrelevant r0 yy s : forall L prev,
+  contribs prev (L ++ [((r0, yy), s)]) = contribs' r0 prev L.
+Proof.
+  induction L as [|[[x y] i] t IH]; intros prev.
+  - reflexivity.
+  - cbn [contribs' app]. specialize (IH y).
+    destruct t as [|[[x' y'] j] t'].
+    + reflexivity.
+    + cbn [app] in *. cbn [contribs]. cbn [contribs] in IH. cbn [nextx].
+      f_equal. exact IH.
+Qed.
+
+Definition lasty2 (prev : Z) (L : list ipoint) : Z := snd (fst (last L ((0, prev), 0%nat))).
+
+Lemma contribs'_snoc r0 xl yl il : forall L prev,
+  contribs' r0 prev (L ++ [((xl, yl), il)]) =
+  contribs' xl prev L ++ [((r0 - xl) * (lasty2 prev L - yl), il)].
+Proof.
+  induction L as [|[[x y] i] t IH]; intros prev.
+  - cbn. reflexivity.
+  - cbn [app contribs']. rewrite IH. cbn [app]. f_equal.
+    + f_equal. f_equal. destruct t as [|[[x' y'] j] t']; reflexivity.
+    + f_equal. f_equal. f_equal. f_equal. unfold lasty2. destruct t as [|e t']; [reflexivity|].
+      change (last (((x, y), i) :: e :: t') ((0, prev), 0%nat)) with (last (e :: t') ((0, prev), 0%nat)).
+      clear. revert e. induction t' as [|e' t'' IHt]; intros e; [reflexivity|].
+      change (last (e :: e' :: t'') ((0, y), 0%nat)) with (last (e' :: t'') ((0, y), 0%nat)).
+      change (last (e :: e' :: t'') ((0, prev), 0%nat)) with (last (e' :: t'') ((0, prev), 0%nat)). apply IHt.
+Qed.
+
+(* the reference point the code uses implicitly *)
+Definition ref2d_of (front : list ipoint) : point :=
+  match front with
+  | [] => []
+  | ((x0, y0), i0) :: t => [fst (fst (last front ((x0, y0), i0))); fold_left (fun m e => Z.max m (snd (fst e))) front y0]
+  end.
+
+Lemma noref2d_entries largest S k e :
+  In e (noref2d largest S k) -> (k <= length S)%nat ->
+  In e (contrib2d_ref (ref2d_of (sort_lex (indexed S))) S).
+Proof.
+  unfold noref2d, contrib2d_ref, contrib2d_noref, append_extremes2d. cbv zeta.
+  set (front := sort_lex (indexed S)).
+  destruct front as [|[[x0 y0] i0] t] eqn:Ef.
+  { cbn. destruct (_ <=? _)%nat; intros []. }
+  cbn [ref2d_of]. set (xl := fst (fst (last (((x0, y0), i0) :: t) ((x0, y0), i0)))).
+  set (ref2 := fold_left (fun m e => Z.max m (snd (fst e))) (((x0, y0), i0) :: t) y0).
+  rewrite contribs_sentinel. cbn [contribs'].
+  (* the selected part is a part of the interior contributions *)
+  assert (Hsel : forall sel, (forall e, In e sel -> In e (contribs y0 t)) ->
+             forall e, In e sel -> In e (contribs' xl y0 t)).
+  { intros sel Hs e' He'. specialize (Hs e' He'). destruct (@exists_last _ t) as [t' [[[xl' yl'] il'] Et]].
+    { intros ->. destruct Hs. }
+    assert (Exl : xl = xl').
+    { unfold xl. rewrite Et. rewrite app_comm_cons, last_last. reflexivity. }
+    rewrite Et in Hs |- *. rewrite contribs_last_irrelevant in Hs. rewrite contribs'_snoc. apply in_or_app. left.
+    exact Hs. }
+  match goal with |- In _ (if (_ <=? length ?r)%nat then _ else _) -> _ => set (res := r) end.
+  assert (Hres : forall e, In e res -> In e (contribs' xl y0 t)).
+  { apply Hsel. intros e'. unfold res. destruct (_ =? 0)%nat; [intros []|]. destruct largest.
+    - unfold largest_kv. intros H. apply in_rev in H. apply In_skipn in H.
+      eapply Permutation_in; [apply sort_kv_perm|exact H].
+    - unfold smallest_kv. intros H. apply In_firstn in H. eapply Permutation_in; [apply sort_kv_perm|exact H]. }
+  intros Hin Hk. destruct (k <=? length res)%nat; [right; apply Hres; exact Hin|].
+  assert (Hlast : t <> [] -> In (0, snd (last (((x0, y0), i0) :: t) ((x0, y0), i0))) (contribs' xl y0 t)).
+  { intros Hne. destruct (@exists_last _ t Hne) as [t' [[[xl' yl'] il'] Et]].
+    assert (Exl : xl = xl') by (unfold xl; rewrite Et, app_comm_cons, last_last; reflexivity).
+    rewrite Et. rewrite app_comm_cons, last_last. cbn [snd]. rewrite contribs'_snoc. apply in_or_app. right. left.
+    rewrite Exl. f_equal. lia. }
+  destruct t as [|[[x1 y1] i1] t1] eqn:Et.
+  - apply in_app_or in Hin. destruct Hin as [Hin|[<-|[]]]; [right; apply Hres; exact Hin|].
+    left. cbn [nextx]. unfold xl. cbn. f_equal. lia.
+  - rewrite <- Et in *. fold xl. fold ref2.
+    match type of Hin with context [if ?c then _ else _] => destruct c end.
+    + apply in_app_or in Hin. destruct Hin as [Hin|[<-|[]]].
+      * apply in_app_or in Hin. destruct Hin as [Hin|[<-|[]]]; [right; apply Hres; exact Hin|].
+        left. rewrite Et. cbn [nextx]. reflexivity.
+      * right. apply Hlast. rewrite Et. discriminate.
+    + apply in_app_or in Hin. destruct Hin as [Hin|[<-|[]]]; [right; apply Hres; exact Hin|].
+      left. rewrite Et. cbn [nextx]. reflexivity.
+Qed.
